@@ -603,3 +603,33 @@ func (m *ServerModel) Digest() string {
 	fmt.Fprintf(&sb, "|%d/%d", len(m.Servers), len(m.Migrations))
 	return sb.String()
 }
+
+// Clone returns a deep copy of the model.
+func (m *ServerModel) Clone() *ServerModel {
+	c := &ServerModel{Registered: m.Registered, GCA: m.GCA, Temp: m.Temp, Offset: m.Offset, Transitions: m.Transitions,
+		Devices: make(map[uint32]*DeviceModel), Bans: make(map[uint32]bool), Migrations: make(map[glow.PublicKey]server.EquipmentMigration)}
+	for id, d := range m.Devices {
+		nd := &DeviceModel{Auth: d.Auth, Slots: make(map[uint32]*SlotModel, len(d.Slots))}
+		for s, st := range d.Slots {
+			cp := *st
+			nd.Slots[s] = &cp
+		}
+		c.Devices[id] = nd
+	}
+	for id := range m.Bans {
+		c.Bans[id] = true
+	}
+	for _, w := range m.Weeks {
+		nw := WeekModel{Offset: w.Offset, Devices: make(map[glow.PublicKey]*[2016]uint64)}
+		for k, v := range w.Devices {
+			cp := *v
+			nw.Devices[k] = &cp
+		}
+		c.Weeks = append(c.Weeks, nw)
+	}
+	c.Servers = append(c.Servers, m.Servers...)
+	for k, v := range m.Migrations {
+		c.Migrations[k] = v
+	}
+	return c
+}
